@@ -7,34 +7,35 @@ Open Scope Z_scope.
 Definition presented (o : ostep) : option session := is_sealed (r_cookie (o_req o)).
 
 (* per-step clauses *)
-Definition c04_step (lower : str -> str) (c : cfg) (u : upolicy) (t0 : Z) (o : ostep) : bool :=
+Definition c04_step_gen (conc : bool) (lower : str -> str) (c : cfg) (u : upolicy) (t0 : Z) (o : ostep) : bool :=
   match presented o with
   | None => negb (o_served o)                 (* no session, no skip-auth in these histories: never served *)
   | Some s =>
       let ok := session_ok_b lower (o_now o) c u (r_host (o_req o)) s (o_ans o) in
       (* served only within lifetime counted from login *)
-      (negb (o_served o) || (o_now o <=? t0 + c_L c + 1)) &&
+      (conc || negb (o_served o) || (o_now o <=? t0 + c_L c + 1)) &&
       (* served with a due check only after confirmation (or bounded outage grace): part of ok *)
       (negb (o_served o) || ok) &&
       (* served without asking => nothing was due *)
-      (negb (o_served o && match o_calls o with [] => true | _ => false end) || negb (due (o_now o) s)) &&
+      (conc || negb (o_served o && match o_calls o with [] => true | _ => false end) || negb (due (o_now o) s)) &&
       (* served without asking => the presented cookie was sealed (login, confirmed check, or
          grace-served check) at most V ago: a check is due once the validity TTL has elapsed *)
-      (negb (o_served o && match o_calls o with [] => true | _ => false end) ||
+      (conc || negb (o_served o && match o_calls o with [] => true | _ => false end) ||
        match o_issued_at o with Some t => o_now o <=? t + c_V c + 1 | None => true end) &&
       (* refused (revoked, denied, group removed, expired...) => upstream not reached AND cookie cleared *)
       (ok || (negb (o_served o) && match o_cookie o with CCleared => true | _ => false end)) &&
       (* whatever is re-saved keeps the lifetime bound *)
       (match o_cookie o with CSaved s' => s_lifetime_dl s' =? s_lifetime_dl s | _ => true end) &&
       (* the bound is the login's *)
-      close (s_lifetime_dl s) (t0 + c_L c)
+      (conc || close (s_lifetime_dl s) (t0 + c_L c))
   end.
+Definition c04_step := c04_step_gen false.
 
 Definition judge (h : case) : N :=
   let lower := lower_tab (h_tab h) in
-  let mism := existsb (step_mismatch lower (h_cfg h) (h_pol h)) (h_steps h) in
+  let mism := existsb (case_step_mismatch h lower (h_cfg h) (h_pol h)) (h_steps h) in
   let t0 := match h_login h with Some t => t | None => 0 end in
-  let holds := forallb (c04_step lower (h_cfg h) (h_pol h) t0) (h_steps h) in
+  let holds := forallb (c04_step_gen (h_conc h) lower (h_cfg h) (h_pol h) t0) (h_steps h) in
   code mism holds 0.
 
 Definition any {A} (f : A -> bool) (l : list A) : N := if existsb f l then 1 else 0.
